@@ -65,6 +65,8 @@ def mc(cs, what, expect=None):
     return r
 
 
+IN = "rel-1.2"             # the directory part of every input path contains a dot
+PRE = ["", "./"]
 TGT = {"missing": "out_missing", "existing": "out_existing", "nested": "deep/er/out"}
 SETTINGS = [({}, "sql"), ({"normalize_names": True}, "hql"), ({}, "bigquery"), ({"silent": False}, "mysql")]
 
@@ -81,7 +83,7 @@ def _replay(task):
     probs = []
     try:
         os.chdir(root)
-        os.makedirs("in")
+        os.makedirs(IN)
         os.makedirs(TGT["existing"])
         with open(os.path.join(TGT["existing"], "keep.me"), "w") as f:
             f.write("x")
@@ -89,7 +91,7 @@ def _replay(task):
         for name, cid in files:
             e = rnd.choice(ENCODINGS[cid])
             enc[name] = e
-            with open(os.path.join("in", name), "w", encoding=e, newline="") as f:
+            with open(os.path.join(PRE[(seed + len(name)) % len(PRE)] + IN, name), "w", encoding=e, newline="") as f:
                 f.write(CONTENT[cid])
         cid_of = dict(files)
 
@@ -103,7 +105,7 @@ def _replay(task):
                 name = op["f"]
                 kw = {"dump": True, "dump_path": t} if op["dump"] else {}
                 try:
-                    got = parse_from_file(os.path.join("in", name), encoding=enc[name], parser_settings=dict(settings) or None, output_mode=mode, **kw)
+                    got = parse_from_file(os.path.join(PRE[(seed + len(name)) % len(PRE)] + IN, name), encoding=enc[name], parser_settings=dict(settings) or None, output_mode=mode, **kw)
                 except BaseException as e:  # noqa
                     probs.append({"op": op, "problem": "parse_from_file raised " + type(e).__name__ + ": " + str(e)[:200]})
                     continue
@@ -116,9 +118,9 @@ def _replay(task):
                 names = [op["f"]] if op["op"] == "cli_file" else [n for n, _ in files]
                 for n in names:
                     enc[n] = "utf-8"
-                    with open(os.path.join("in", n), "w", encoding="utf-8", newline="") as f:
+                    with open(os.path.join(IN, n), "w", encoding="utf-8", newline="") as f:
                         f.write(CONTENT[cid_of[n]])
-                argv = [os.path.join("in", op["f"]) if op["op"] == "cli_file" else "in", "-t", t, "-o", mode]
+                argv = [os.path.join(PRE[(seed + len(op["f"])) % len(PRE)] + IN, op["f"]) if op["op"] == "cli_file" else PRE[seed % len(PRE)] + IN, "-t", t, "-o", mode]
                 if not op["dump"]:
                     argv.append("--no-dump")
                 elif rnd.random() < 0.5:
@@ -158,7 +160,7 @@ def _replay(task):
         for tgt, nm, res in beh["disk"]:
             # CLI ops parse with default settings; parse_from_file with `settings`: which op wrote this file last?
             want_files[os.path.join(TGT[tgt], nm[0] + nm[1])] = res[1]
-        have = {p for p in _listing(root) if not p.startswith("in/") and not p.endswith("keep.me")}
+        have = {p for p in _listing(root) if not p.startswith(IN + "/") and not p.endswith("keep.me")}
         if have != set(want_files):
             probs.append({"problem": "files on disk differ from the specification's state", "expected": sorted(want_files), "observed": sorted(have)})
         else:
